@@ -286,14 +286,15 @@ def rec_str(jp, q: str, docs_enc, env=None, extra=None, docs=None):
     return rec
 
 
-def rec_total(jp, q: str, doc, env=None):
+def rec_total(jp, q: str, doc, env=None, paths: bool = False):
     """Outcome class only, for C13: compile then evaluate, under a time limit."""
     rec: Dict[str, Any] = {"op": "total", "q": core.enc_text(q)}
 
     def go():
         c = (env or jp).compile(q)
-        for _ in c.finditer(doc):
-            pass
+        for node in c.finditer(doc):
+            if paths:
+                node.path()
         str(c)
 
     try:
